@@ -241,6 +241,42 @@ def big_index_cases(quick=False):
     return cases
 
 
+def repointing_index_cases():
+    """the index expression itself re-points the slice that is being indexed at an array of another length (the index is
+    evaluated before the slice is read, so the *new* slice decides): the bounds check and the access must use the same slice"""
+    cases = []
+    decls = ("RPBuf :: struct { small: [2]i32, guard: [4]i32, big: [6]i32, tail: [2]i32 };\n"
+             "rp_to2 :: (s: ^mut []i32, target: ^mut [2]i32, i: usize) -> usize { s^ = target^; i }\n"
+             "rp_to6 :: (s: ^mut []i32, target: ^mut [6]i32, i: usize) -> usize { s^ = target^; i }\n")
+    for direction, (old, new, fn, newlen) in {"shrink": ("big", "small", "rp_to2", 2), "grow": ("small", "big", "rp_to6", 6)}.items():
+        for access in ("read", "write"):
+            for i in range(0, 8):
+                body = ["rb := RPBuf.{ small = i32.[21, 22], guard = i32.[777, 778, 779, 780], big = i32.[61, 62, 63, 64, 65, 66], tail = i32.[991, 992] };",
+                        f"s : []i32 = rb.{old};", f"ix : usize = usize.(opq({i}));", "pr(-1);"]
+                model = {"small": [21, 22], "guard": [777, 778, 779, 780], "big": [61, 62, 63, 64, 65, 66], "tail": [991, 992]}
+                out = [-1]
+                place = f"s[{fn}(^mut s, ^mut rb.{new}, ix)]"
+                if access == "read":
+                    body.append(f"pr(i64.({place}));")
+                    if i < newlen:
+                        out.append(model[new][i])
+                else:
+                    body.append(f"{place} = 5;")
+                    if i < newlen:
+                        model[new][i] = 5
+                body.append("pr(-2);")
+                key = f"repointing-index/{direction}/{access}/{i}"
+                if i < newlen:
+                    out.append(-2)
+                    body.append("k := 0; while k < 2 { pr(i64.(rb.small[k])); k += 1; } k = 0; while k < 4 { pr(i64.(rb.guard[k])); k += 1; } "
+                                "k = 0; while k < 6 { pr(i64.(rb.big[k])); k += 1; } pr(i64.(rb.tail[0])); pr(i64.(rb.tail[1])); pr(i64.(s.len));")
+                    out += model["small"] + model["guard"] + model["big"] + model["tail"] + [newlen]
+                    cases.append(PCase(key, "\n".join(body), fmt_leaves(out)))
+                else:
+                    cases.append(PCase(key, "\n".join(body), fmt_leaves(out), fault="index out of bounds", never="-2 "))
+    return cases, decls
+
+
 # ----------------------------------------------------------------------------------------------
 # unwrap
 
@@ -430,10 +466,11 @@ def run(tier, seed):
     dr = dispatch.DispatchRunner("c10", prelude, group=150)
     mism = dr.run(pcases)
     # the enum declarations of this family are shared by the cases of a pattern, so they go into the prelude of their own runner
-    du_prelude = prelude + "\n".join(sorted({c.meta_decl for c in du_cases})) + "\n"
+    rp_cases, rp_decls = repointing_index_cases()
+    du_prelude = prelude + "\n".join(sorted({c.meta_decl for c in du_cases})) + "\n" + rp_decls
     dr2 = dispatch.DispatchRunner("c10du", du_prelude, group=150)
-    mism += dr2.run(du_cases)
-    pcases = pcases + du_cases
+    mism += dr2.run(du_cases + rp_cases)
+    pcases = pcases + du_cases + rp_cases
     rr = core.Runner("c10r", batch_size=100, prelude=prelude)
     mism += rr.run(rcases)
     faults = sum(1 for c in pcases if c.fault)
